@@ -422,13 +422,14 @@ func enumExhausted(ifi *ssa.If, p *core.Program) bool {
 	tested := map[int64]bool{}
 	b := ifi.Block()
 	x := bo.X
+	laterPure := true // every later block of the chain only loads and compares
 	for {
 		last, ok := b.Instrs[len(b.Instrs)-1].(*ssa.If)
 		if !ok {
 			break
 		}
 		c, ok := last.Cond.(*ssa.BinOp)
-		if !ok || c.Op != token.EQL || c.X != x {
+		if !ok || c.Op != token.EQL || !sameSelector(c.X, x, laterPure) {
 			break
 		}
 		k, ok := core.ConstInt(c.Y)
@@ -440,6 +441,7 @@ func enumExhausted(ifi *ssa.If, p *core.Program) bool {
 		if len(b.Preds) != 1 || len(b.Preds[0].Succs) != 2 || b.Preds[0].Succs[1] != b {
 			break
 		}
+		laterPure = laterPure && pureTestBlock(b)
 		b = b.Preds[0]
 	}
 	sc := named.Obj().Pkg().Scope()
@@ -459,6 +461,37 @@ func enumExhausted(ifi *ssa.If, p *core.Program) bool {
 		}
 	}
 	return n > 0
+}
+
+// sameSelector: a and b are the same value, or two loads of the same field of the same object while
+// every later block of the chain only loads and compares (an if-else chain re-reads the field per
+// test; nothing between the tests can have changed it).
+func sameSelector(a, b ssa.Value, laterPure bool) bool {
+	if a == b {
+		return true
+	}
+	if !laterPure {
+		return false
+	}
+	la, ok1 := a.(*ssa.UnOp)
+	lb, ok2 := b.(*ssa.UnOp)
+	if !ok1 || !ok2 || la.Op != token.MUL || lb.Op != token.MUL {
+		return false
+	}
+	fa, ok1 := la.X.(*ssa.FieldAddr)
+	fb, ok2 := lb.X.(*ssa.FieldAddr)
+	return ok1 && ok2 && fa.X == fb.X && fa.Field == fb.Field
+}
+
+func pureTestBlock(x *ssa.BasicBlock) bool {
+	for _, in := range x.Instrs {
+		switch in.(type) {
+		case *ssa.FieldAddr, *ssa.UnOp, *ssa.BinOp, *ssa.If, *ssa.DebugRef, *ssa.Convert, *ssa.ChangeType:
+		default:
+			return false
+		}
+	}
+	return true
 }
 
 // normaliseRaw: when either automaton moves raw bytes of unknown length ("RAW"),
